@@ -137,4 +137,46 @@ theorem save_entry_refused_none {α : Type} (f : Bool) : save_entry_refused f (n
 /-- `return is_still_good && !stream.fail()` with `is_still_good = false` -/
 @[simp] theorem save_result_false (f : Bool) : save_result false f = false := rfl
 
+/-! ### `section_impl<T>::save` -/
+
+/-- the data of a section are written: both instantiations, in the form the lemmas use -/
+theorem secWritesData_eq (c : Cls) (b : SecBuf) :
+    secWritesData c b =
+      (b.stype != BitVec.ofNat 32 SHT_NOBITS && b.stype != BitVec.ofNat 32 SHT_NULL && b.size != 0 && b.data.isSome) := by
+  have hn : (!b.data.isNone) = b.data.isSome := by cases b.data <;> rfl
+  have h0 : (BitVec.signExtend 64 0#32 : BitVec 64) = 0 := by decide
+  cases c <;> simp only [secWritesData, save_sec_writes_data, save_sec_writes_data32, hn, h0]
+
+/-- `get_data()` is requested -/
+theorem secWantsData_eq (c : Cls) (b : SecBuf) :
+    secWantsData c b =
+      (b.stype != BitVec.ofNat 32 SHT_NOBITS && b.stype != BitVec.ofNat 32 SHT_NULL && b.size != 0) := by
+  have h0 : (BitVec.signExtend 64 0#32 : BitVec 64) = 0 := by decide
+  cases c <;> simp only [secWantsData, save_sec_wants_data, save_sec_wants_data32, h0]
+
+/-! ### `segment_impl<T>::add_section_index` -/
+
+/-- `addr_align > get_align()` -/
+@[simp] theorem save_segadd_raise_eq (a g : BitVec 64) : save_segadd_raise a g = BitVec.ult g a := rfl
+/-- both instantiations of `segment_impl` test the same condition (the model calls the ELF64 one) -/
+theorem save_segadd_raise32_eq (a g : BitVec 64) : save_segadd_raise32 a g = save_segadd_raise a g := rfl
+
+/-! ### `if ( 0 != sec->get_index() ) sec->set_offset( … )` -/
+
+theorem wsd_index_nonzero_half (b : SecBuf) : wsd_index_nonzero (secIndexHalf b) = (b.index != 0) := by
+  have h : (BitVec.setWidth 32 (BitVec.ofNat 16 (min b.index 65535))).toNat = min b.index 65535 := by
+    simp only [BitVec.toNat_setWidth, BitVec.toNat_ofNat, Nat.reducePow]; omega
+  unfold wsd_index_nonzero secIndexHalf
+  rw [Bool.eq_iff_iff, bne_iff_ne, bne_iff_ne, ne_eq, ne_eq, ← BitVec.toNat_inj, h]
+  simp only [BitVec.toNat_ofNat, Nat.reducePow, Nat.zero_mod]
+  omega
+
+/-- `set_offset` guarded by the section index, in the form the lemmas were written against -/
+theorem setOffset_eq (c : Cls) (b : SecBuf) (v : BitVec 64) :
+    setOffset c b v = if b.index != 0 then { b with offset := truncA c v } else b := by
+  unfold setOffset; rw [wsd_index_nonzero_half]
+
+/-- `layout_sections_without_segments` guards `set_offset` with the same test as `write_segment_data` -/
+@[simp] theorem setOffsetLoose_eq (c : Cls) (b : SecBuf) (v : BitVec 64) : setOffsetLoose c b v = setOffset c b v := rfl
+
 end ElfioVerif
